@@ -53,11 +53,13 @@ def run(chk, ctx) -> None:
     # "the player to act": who opens a round (the match over the opening rule in _begin_betting, anchored here too) is C13's table
     from . import c13
     from .helpers import Refile
-    c13.run(Refile(chk, {'C13.table': 'C03.opener'}), ctx)
+    from .helpers import foreign as _fg
+    _fg(chk, c13.run, Refile(chk, {'C13.table': 'C03.opener'}), ctx)
     chk.floor('C03.opener', 5)
     # "the pot-sized raise": the size of the pot is every bet on the table plus the whole amount of every pot (rake included)
     from .c01 import _pots
-    _pots(Refile(chk, {'C01.pots': 'C03.pot_size'}, only=lambda r, c: c in ('State.total_pot_amount', 'Pot.amount')), ctx)
+    from .helpers import foreign
+    foreign(chk, _pots, Refile(chk, {'C01.pots': 'C03.pot_size'}, only=lambda r, c: c in ('State.total_pot_amount', 'Pot.amount')), ctx)
     chk.floor('C03.pot_size', 2)
     _amounts(chk, ctx)
     _max_amount(chk, ctx)
